@@ -32,6 +32,7 @@ type PickRes struct {
 	Code   int    `json:"code,omitempty"`   // status: the code
 	Addr   int    `json:"addr,omitempty"`   // ready: backend index (mod Backends)
 	NoDone bool   `json:"nodone,omitempty"` // result carries no Done callback
+	Shut   bool   `json:"shut,omitempty"`   // notready: the SubConn the policy has already Shutdown (else the never-connecting one)
 }
 
 // RPCPlan describes one RPC: its call options and the answers its Pick calls get
@@ -98,6 +99,7 @@ type PickRec struct {
 	Res       PickRes
 	Addr      int  // resolved backend index (ready) / index of the never-ready address (notready)
 	AddrReady bool // the policy's view of the returned SubConn was READY when Pick returned
+	AddrShut  bool // the policy had been told that the returned SubConn is in SHUTDOWN when Pick returned
 	Stable    bool // no readiness-changing operation was in flight (issued since the last quiescence point)
 	Done      *DoneRec
 }
@@ -158,6 +160,7 @@ type PickRig struct {
 	Servers  []*Server
 	Handlers *Handlers
 	NeverIdx int // index of the never-ready address
+	ShutIdx  int // index of the address whose SubConn the policy shut down right after creating it
 
 	mu    sync.Mutex // guards RPC records and DoneRecs
 	RPCs  []*RPCRec
@@ -269,11 +272,15 @@ func (r *PickRig) pickFn(c *Controller, gen int, info balancer.PickInfo) (balanc
 		err = status.Error(codes.Code(res.Code), "e2elife: picker status")
 	case "notready", "ready":
 		pr.Addr = r.NeverIdx
+		if res.Shut {
+			pr.Addr = r.ShutIdx
+		}
 		if res.Kind == "ready" {
 			pr.Addr = res.Addr % r.Plan.Backends
 		}
 		out.SubConn = c.SubConn(pr.Addr)
 		pr.AddrReady = c.State(pr.Addr) == connectivity.Ready
+		pr.AddrShut = c.State(pr.Addr) == connectivity.Shutdown
 		out.Metadata = metadata.Pairs(pickSeqKey, strconv.Itoa(pr.Seq))
 		if !res.NoDone {
 			d := &DoneRec{}
@@ -311,7 +318,7 @@ func StartPickRig(p PickPlan) (*PickRig, error) { return StartPickRigOpts(p, Pic
 
 // StartPickRigOpts is StartPickRig with optional extensions.
 func StartPickRigOpts(p PickPlan, opts PickRigOpts) (*PickRig, error) {
-	r := &PickRig{Plan: p, Handlers: NewHandlers(), byID: map[string]*RPCRec{}, NeverIdx: p.Backends, opts: opts}
+	r := &PickRig{Plan: p, Handlers: NewHandlers(), byID: map[string]*RPCRec{}, NeverIdx: p.Backends, ShutIdx: p.Backends + 1, opts: opts}
 	addrs := make([]string, 0, p.Backends+1)
 	for i := 0; i < p.Backends; i++ {
 		tag := fmt.Sprintf("b%d", i)
@@ -323,9 +330,10 @@ func StartPickRigOpts(p PickPlan, opts PickRigOpts) (*PickRig, error) {
 		}
 		r.dial = append(r.dial, &backendDial{up: true, wake: make(chan struct{})})
 	}
-	addrs = append(addrs, "never")
-	r.dial = append(r.dial, &backendDial{up: false, wake: make(chan struct{})})
+	addrs = append(addrs, "never", "shut")
+	r.dial = append(r.dial, &backendDial{up: false, wake: make(chan struct{})}, &backendDial{up: false, wake: make(chan struct{})})
 	r.Ctl = NewController("pickrig", addrs)
+	r.Ctl.Shut = map[int]bool{r.ShutIdx: true}
 	r.Ctl.PickFn = r.pickFn
 	r.Ctl.HealthCheck = opts.HealthCheck
 	dialer := func(ctx context.Context, addr string) (net.Conn, error) {
@@ -754,6 +762,7 @@ func GenPickPlan(rt *rapid.T, profile string, maxOps int) PickPlan {
 		case n < w[0]+w[1]+w[2]+w[3]:
 			res.Kind = "notready"
 			res.NoDone = rapid.IntRange(0, 9).Draw(rt, "nodone") == 0
+			res.Shut = rapid.IntRange(0, 2).Draw(rt, "shut") == 0
 		default:
 			res.Kind = "ready"
 			res.Addr = rapid.IntRange(0, p.Backends-1).Draw(rt, "addr")
